@@ -32,6 +32,9 @@ def compileStr (data : List UInt8) : String :=
   | _ => "parse-error"
 
 def opsCompile : List String → Option (String × String)
+  | ["sendtype", h, want] => do
+    let b ← hexBytes? h
+    some (toString (sendTypeOf b), want)
   | ["cmp", h] => do
     let data ← hexBytes? h
     some (compileStr data, "-")
